@@ -329,7 +329,10 @@ class ExprMixin:
         if is_str(container):
             return z3.Contains(container, x)
         if is_seq(container):
-            return z3.Contains(container, z3.Unit(x))
+            # membership spelled out as an index (the form the quantified invariants talk about; the sequence solver's own
+            # `contains` is far slower in the presence of the other sequence equations)
+            jq = z3.Int(f"in!q{len(st.pc)}")
+            return z3.Exists([jq], z3.And(jq >= 0, jq < z3.Length(container), container[jq] == x))
         if isinstance(container, PyConst) and container.name == "KEYWORDS":
             return is_keyword(x)
         if isinstance(container, PyConst) and container.name == "SOFT_KEYWORDS":
@@ -449,6 +452,14 @@ class ExprMixin:
         if not (is_str(v) or is_seq(v)):
             raise Unsupported("slice of " + type(v).__name__)
         n = z3.Length(v)
+        if is_seq(v) and lo is None and hi is not None and z3.is_int_value(z3.simplify(lift(hi))) and z3.simplify(lift(hi)).as_long() == -1:
+            # x[:-1]: all but the last element, with the defining equations instantiated
+            rest = fresh("init", v.sort())
+            jq = z3.Int("sl!q")
+            s.assume(z3.Length(rest) == z3.If(n > 0, n - 1, 0))
+            s.assume(z3.ForAll([jq], z3.Implies(z3.And(jq >= 0, jq < z3.Length(rest)), rest[jq] == v[jq])))
+            s.assume(z3.Implies(n > 0, v == z3.Concat(rest, z3.Unit(v[n - 1]))))
+            return rest
 
         def clamp(x, default):
             if x is None:
@@ -481,7 +492,9 @@ class ExprMixin:
         if is_str(v) or is_seq(v):
             n = z3.Length(v)
             self.safety(s, z3.And(i >= -n, i < n), f"subscript `{ast.unparse(node)[:60]}` in range (IndexError)", node)
-            j = self.norm_index(n, i)
+            # Python's negative-index wrap is only encoded when the index may actually be negative on this path
+            # (keeps `seq[j]` terms in the plain form the instantiated lemmas talk about)
+            j = self.norm_index(n, i) if self.feasible(s, i < 0) else i
             if is_str(v):
                 return z3.SubString(v, j, 1)
             return v[j]
